@@ -8,7 +8,7 @@ from fractions import Fraction
 from math import lcm
 
 HEADER = "From Isobar Require Import Base.Prelude Sched.Model Sched.Obs.\n"
-FUEL = 64
+FUEL = 5000       # iterations of Track.tick's catch-up loop the model follows within one tick
 
 
 # ---- scenario -> Coq ------------------------------------------------------------------------------
@@ -178,7 +178,21 @@ def model_disagreements(run, scenarios, results, chunk=40):
             terms.append("false")
         else:
             terms.append(agrees_term(sc, r["obs"]))
-    return run.coq_failing(HEADER, terms, chunk=chunk)
+    bad = run.coq_failing(HEADER, terms, chunk=chunk)
+    if bad:
+        # a history on which the model itself runs out of fuel (a catch-up loop of thousands of events within one tick)
+        # is not described by the model: discarded and counted, not reported
+        probe = ["out_of_fuel %s %s" % (coq_config(scenarios[i]), coq_history(scenarios[i]))
+                 if terms[i] != "false" else "false" for i in bad]
+        spent = set(run.coq_failing(HEADER, ["negb (%s)" % t for t in probe], chunk=chunk))
+        keep = []
+        for j, i in enumerate(bad):
+            if j in spent:
+                run.discard("model-out-of-fuel")
+            else:
+                keep.append(i)
+        bad = keep
+    return bad
 
 
 def model_trace(run, sc):
